@@ -95,7 +95,7 @@ class C09(core.Check):
         chunk, on a chunk boundary, or in the normal simulator; long and short; the candles afterwards stay beyond it"""
         out = []
         for _ in range(n):
-            lev = rng.choice([5, 10, 20, 25])
+            lev = rng.choice([1, 2, 5, 10, 20, 25])      # leverage 1: a long's bankruptcy price is exactly 0
             side = rng.choice(['long', 'short'])
             sg = 1 if side == 'long' else -1
             fast = rng.random() < 0.7
@@ -106,6 +106,8 @@ class C09(core.Check):
             step = 0.125
             near = round((liq + sg * rng.choice([0.25, 0.5, 1.0])) / step) * step          # last price before the jump
             far = round((liq - sg * rng.choice([0.25, 0.5, 1.0, 2.0])) / step) * step      # first price after it
+            if lev == 1 and side == 'long':
+                near, far = rng.choice([0.5, 0.75, 2.0]), 0.25       # liquidation price 0.4
             n_rows = m * rng.choice([3, 4]) if m >= 3 else 12
             jump_at = m + rng.randrange(1, n_rows - m - 1)       # the row that opens beyond the liquidation price
             rows = []
@@ -186,6 +188,14 @@ class C09(core.Check):
                             if not (okside and abs(abs(o['qty']) - abs(cur_q)) < 1e-9 and abs(o['price'] - bk) < 1e-9 * max(1, bk)):
                                 res.fail(**{'class': 'liquidation/closing-order', 'input': self.desc(sess), 'observed': o,
                                             'expected': {'side': 'closing', 'qty': abs(cur_q), 'price': bk}})
+                            # the position loses exactly its initial margin (plus the fee of the closing fill)
+                            if len(e) >= 6 and e[4] is not None and e[5] is not None:
+                                margin = abs(cur_q) * cur_e / L
+                                fee = sess['fee'] * abs(cur_q) * bk
+                                if abs((e[4] - e[5]) - (margin + fee)) > 1e-7 * max(1.0, margin):
+                                    res.fail(**{'class': 'liquidation/loss-is-not-the-initial-margin', 'input': self.desc(sess),
+                                                'observed': {'order': k, 'wallet_before': e[4], 'wallet_after': e[5], 'position': [cur_q, cur_e]},
+                                                'expected': {'loss': margin + fee, 'fill_price': bk}})
                             c0, c1 = unit * step, min(unit * step + step, n)
                             lo, hi = self.unit_range(arr, c0, c1)
                             if not (lo - 1e-9 <= liq <= hi + 1e-9) or not sess['isolated']:
